@@ -1,12 +1,42 @@
 mod api;
+mod common;
 mod fixtures;
 mod refmodel;
+mod scen_sig;
 
 use zksim_core::runner::Check;
 use zksim_core::sim;
 
 #[global_allocator]
 static ALLOC: sim::CountingAlloc = sim::CountingAlloc;
+
+const REAL: &[&str] = &["everything under /repo/src (zkryptium, built without cfg(test))", "rand 0.8 thread_rng / ReseedingRng", "getrandom crate retry loop", "bls12_381_plus", "serde_json codecs"];
+const SIMULATED: &[&str] = &["network (frames of octet strings between roles)", "issuer key store and holder wallet (octets at rest)", "OS entropy (deterministic per-node stream below getrandom(2), with EINTR / short reads)", "scheduler (baton over real threads, tick preemption)", "node crash/restart", "adversary (Mallory)"];
+
+static C01: Check = Check {
+    property: "C01",
+    level: "exploration",
+    rule: "one run = 1-3 issuance sessions (suite, key material, key_info, header, L messages drawn per run) interleaved on an issuer and a holder thread, with neutral faults only (absent<->empty toggles, swap of equal messages, dup+drop, frame duplication, issuer/holder crash-restart with reload from octets/coordinates/JSON); a case = one (statement, delivered octets) pair that reached sign/verify; distinct = distinct SHA-256 of that content",
+    quick_runs: 600,
+    thorough_runs: 2000,
+    run: scen_sig::run_c01,
+    assumptions: &["acceptance decided by the ideal functionality: delivered statement equals the signed one after None==empty normalisation", "entropy seam is only exercised by KeyPair::random here"],
+    real: REAL,
+    simulated: SIMULATED,
+    exhaustive_after: None,
+};
+static C02: Check = Check {
+    property: "C02",
+    level: "fault_enumeration",
+    rule: "one run = one honest credential, then every fault of the catalogue applied to a copy of the Credential frame and delivered to the holder: 40 of the 640 signature bit flips (run index mod 16 selects the slice, so 16 consecutive runs enumerate all 640), every single-element list fault for L<=8 (alter first/middle/last byte, drop, dup, swap, insert, truncate, extend), 9 header faults, misroute to other suite / blind interface / other key, 6 stored-pk bit flips, blind-interface signature at plain endpoints; verdict by content (MustReject unless the delivered statement equals a signed one); a case = one delivered frame that reached the verifier",
+    quick_runs: 64,
+    thorough_runs: 640,
+    run: scen_sig::run_c02,
+    assumptions: &["a MustReject frame is accepted by correct code with probability <= 2^-128", "panics of the verifier are counted as rejection here and charged to C08"],
+    real: REAL,
+    simulated: SIMULATED,
+    exhaustive_after: Some(16),
+};
 
 fn node_init() {
     zkryptium::verif_hooks::install(Some(sim::on_tick));
@@ -23,6 +53,10 @@ fn main() {
             Err(e) => { eprintln!("refmodel != fixtures: {e} (harness error)"); std::process::exit(2) }
         }
     }
-    let checks: Vec<&Check> = vec![];
+    let checks: Vec<&Check> = vec![&C01, &C02];
+    if let Err(e) = fixtures::check_all() {
+        eprintln!("refmodel != fixtures: {e} (harness error)");
+        std::process::exit(2);
+    }
     std::process::exit(zksim_core::runner::cli(&checks));
 }
